@@ -167,11 +167,29 @@ def r10_truncate_casts(text):
             return text, count
 
 
+def r13_alloc_sites(text):
+    """R13: data-sized allocations become calls with the precondition `n <= limit()` (C05 obligation):
+    `vec![0u8; E]` -> `vec_zeroed(E)`."""
+    toks = rsx.sig_tokens(text)
+    edits = []
+    for i, (k, t, s, e) in enumerate(toks):
+        if k == 'id' and t == 'vec' and i + 2 < len(toks) and toks[i + 1][1] == '!' and toks[i + 2][1] == '[':
+            c = rsx.match_close(toks, i + 2)
+            inner = text[toks[i + 2][3]:toks[c][2]]
+            m = re.match(r'\s*0u8\s*;(.*)$', inner, re.S)
+            if m:
+                edits.append((s, toks[c][3], 'vec_zeroed(%s)' % m.group(1).strip()))
+    for s, e, rep in reversed(edits):
+        text = text[:s] + rep + text[e:]
+    return text, len(edits)
+
+
 GLOBAL_REWRITES = [
     ('R2 map_err(Ctor)->closure', r2_map_err_ctor),
     ('R2 map(Ctor)->closure', r2b_map_ctor),
     ('R2 closure |e| Details::X(..).into() gets explicit ensures', r2c_closure_into),
     ('R11 drop logging macros', r11_drop_logging),
+    ('R13 vec![0u8; n] -> vec_zeroed(n) requiring n <= limit()', r13_alloc_sites),
 ]
 
 # ---------------------------------------------------------------------------------------------
@@ -195,6 +213,11 @@ def parse_template(path, seen=None):
                     segs.append(('text', '\n'.join(cur)))
                     cur = []
                 segs.extend(parse_template(inc, seen))
+            i += 1
+            continue
+        m = re.match(r'\s*//@import\s+(\S+)\s+(.*)$', ln)
+        if m:
+            cur.append(import_contracts(os.path.join(os.path.dirname(path), m.group(1)), [x.strip() for x in m.group(2).split(',') if x.strip()]))
             i += 1
             continue
         m = re.match(r'\s*//@fn\s+(\S+)\s+(.*)$', ln)
@@ -257,6 +280,26 @@ def parse_template(path, seen=None):
     if cur:
         segs.append(('text', '\n'.join(cur)))
     return segs
+
+
+def import_contracts(unit_path, names):
+    """Restate contracts proved in another unit as external_body signatures (modular verification: the caller is
+    checked against the callee's contract).  The text is copied from the proving unit's template on every run, so
+    the two cannot drift; vrun adds the proving unit to the property's unit list."""
+    unit = os.path.basename(unit_path).rsplit('.', 1)[0]
+    out = []
+    segs = parse_template(unit_path)
+    have = {}
+    for kind, seg in segs:
+        if kind == 'fn':
+            have[seg['id']] = seg
+            have.setdefault(seg['id'].split('::')[-1], seg)
+    for n in names:
+        if n not in have:
+            raise SystemExit('import: %s not found in %s' % (n, unit_path))
+        sig = '\n'.join(have[n]['sig']).rstrip()
+        out.append('// @proved-in %s %s\n#[verifier::external_body]\n%s\n{ unimplemented!() }\n' % (unit, have[n]['id'], sig))
+    return '\n'.join(out)
 
 
 def extract_source(fn):
